@@ -115,12 +115,15 @@ class Contracts:
                 elif kind == 'looppre':
                     cur = []
                     self.looppre[(parts[1], int(parts[2]))] = cur
-                elif kind == 'hint':
-                    m = re.match(r'@@\s*hint\s+(\S+)\s+(before|after)\s+"(.*)"\s*$', raw)
+                elif kind in ('hint', 'hintalt'):
+                    # `@@ hintalt` is an alternative formulation of the preceding `@@ hint` (same proof step for another way of writing the
+                    # anchored line): the first alternative whose anchor is found is spliced; the hint is lost only if none is
+                    m = re.match(r'@@\s*hint(?:alt)?\s+(\S+)\s+(before|after)\s+"(.*)"\s*$', raw)
                     if not m:
                         raise SystemExit("bad hint line in %s: %s" % (path, raw))
                     cur = []
-                    self.hints.append(dict(fn=m.group(1), where=m.group(2), anchor=m.group(3), text=cur))
+                    grp = (self.hints[-1]['group'] if (kind == 'hintalt' and self.hints) else len(self.hints))
+                    self.hints.append(dict(fn=m.group(1), where=m.group(2), anchor=m.group(3), text=cur, group=grp))
                 elif kind == 'drop':
                     self.drop.add(parts[1])
                     cur = None
@@ -423,16 +426,22 @@ def splice(s, con, rw, fnmap_sink, focus=None):
                 edits.append((loops[k]['body_close'], 0, '\n'.join(text).rstrip() + '\n'))
             rw.count('T4-' + which, 1)
 
+    done_groups = set()
+    pending_lost = {}
     for h in con.hints:
         fname = h['fn']
         if fname not in names or fname in con.drop:
+            continue
+        if h['group'] in done_groups:
             continue
         a, body_open, body_close = rsrc.find_fn(s, fname)
         body = s[body_open:body_close]
         cnt = body.count(h['anchor'])
         if cnt != 1:
-            lost_hints.append(dict(fn=fname, anchor=h['anchor'], found=cnt))
+            pending_lost.setdefault(h['group'], dict(fn=fname, anchor=h['anchor'], found=cnt))
             continue
+        done_groups.add(h['group'])
+        pending_lost.pop(h['group'], None)
         off = body_open + body.index(h['anchor'])
         if h['where'] == 'before':
             ls = s.rfind('\n', 0, off) + 1
@@ -441,6 +450,7 @@ def splice(s, con, rw, fnmap_sink, focus=None):
             le = s.find('\n', off) + 1
             edits.append((le, 0, '\n'.join(h['text']).rstrip() + '\n'))
         rw.count('T4-hint', 1)
+    lost_hints += [v for g, v in pending_lost.items() if g not in done_groups]
 
     # arm splitting: edits that fall inside a pruned arm disappear with it
     PR = ('return { assume(false); vstd::pervasive::unreached() }', '{ assume(false); vstd::pervasive::unreached() }')
@@ -546,6 +556,7 @@ def extract(unit, repo, out_path, features=None, focus=None):
         if items is not None:
             s = take_items(s, items)
         s = rw.t3_uses_and_cfg(s, features)
+        s = t28_inline_helpers(s, unit, con, rw)
         s = rw.t2_derives(s)
         s = rw.t1_error_type(s)
         s = rw.t7_format(s)
@@ -789,6 +800,108 @@ def t20_float_neg(s, rw):
 F64_CONSTS = (('f64::NEG_INFINITY', 'c_neg_inf()'), ('f64::INFINITY', 'c_inf()'), ('f64::NAN', 'c_nan()'),
               ('std::f64::consts::PI', 'c_f64_pi()'), ('std::f64::consts::E', 'c_f64_e()'), ('f64::EPSILON', 'c_f64_epsilon()'),
               ('f64::MIN_POSITIVE', 'c_f64_min_positive()'), ('f64::MAX', 'c_f64_max()'), ('f64::MIN', 'c_f64_min()'))
+
+
+_INVENTORY = []
+
+
+def _split_top(text):
+    """split at top-level commas"""
+    out, depth, cur = [], 0, []
+    for ch in text:
+        if ch in '([{<':
+            depth += 1
+        elif ch in ')]}>':
+            depth -= 1
+        if ch == ',' and depth == 0:
+            out.append(''.join(cur))
+            cur = []
+        else:
+            cur.append(ch)
+    if ''.join(cur).strip():
+        out.append(''.join(cur))
+    return [x.strip() for x in out]
+
+
+def t28_inline_helpers(s, unit, con, rw):
+    """T28.  A private free function that a change introduced (not in the inventory of the pinned tree, no contract) is inlined at its call
+    sites as a block `{ let p1: T1 = a1; ..; BODY }` and its definition dropped - what Rust's inliner may do, done textually, so that the
+    caller is verified against the helper's *body* instead of an absent contract.  Only for the simple shape: no `self`, no generics, no
+    `return`, not recursive, every parameter a plain `name: Type`; a body using `?` only where every call is itself followed by `?`.
+    Anything else is left alone (a failing caller is then UNDECIDED, see verus_unit)."""
+    if not _INVENTORY:
+        try:
+            _INVENTORY.append(json.load(open(os.path.join(VERIF, 'contracts', 'fn_inventory.json')))['units'])
+        except Exception:
+            _INVENTORY.append({})
+    inv = _INVENTORY[0].get(unit)
+    if inv is None:
+        return s
+    for _round in range(3):
+        names = rsrc.fn_names(s)
+        contracted = set(k[0] for k in con.fns)
+        cands = [n for n in dict.fromkeys(names) if n not in inv and n not in contracted and names.count(n) == 1]
+        changed = False
+        for name in cands:
+            try:
+                a, bo, bc = rsrc.find_fn(s, name)
+            except LostAnchor:
+                continue
+            sig = s[a:bo]
+            m = re.match(r'fn\s+%s\s*\(' % re.escape(name), sig)
+            if not m:
+                continue                      # generics or something unusual between the name and `(`
+            pclose = rsrc.match_close(s, a + m.end() - 1)
+            params = _split_top(s[a + m.end():pclose])
+            if any('self' in re.split(r':', p_)[0] for p_ in params):
+                continue
+            if not all(re.match(r'^(mut\s+)?[A-Za-z_][A-Za-z0-9_]*\s*:\s*\S', p_) for p_ in params):
+                continue
+            body = s[bo:bc + 1]
+            mask = rsrc.code_mask(s)
+            code_body = ''.join(ch if mask[bo + i] else ' ' for i, ch in enumerate(body))
+            if re.search(r'\breturn\b', code_body) or re.search(r'\b%s\s*\(' % re.escape(name), code_body):
+                continue
+            uses_q = '?' in code_body
+            # the definition, with the doc comments / attributes above it
+            ds = s.rfind('\n', 0, a) + 1
+            if s[ds:a].strip() not in ('', 'pub', 'pub(crate)', 'pub(super)'):
+                continue
+            while True:
+                prev = s.rfind('\n', 0, ds - 1) + 1
+                line = s[prev:ds].strip()
+                if ds > 0 and (line.startswith('///') or line.startswith('#[') or line.startswith('//')):
+                    ds = prev
+                else:
+                    break
+            calls = [c for c in re.finditer(r'\b%s\s*\(' % re.escape(name), s) if mask[c.start()] and not (a <= c.start() <= bc)
+                     and not re.search(r'\bfn\s+$', s[max(0, c.start() - 8):c.start()])]
+            if not calls:
+                continue
+            edits = []
+            ok = True
+            for c in calls:
+                close = rsrc.match_close(s, c.end() - 1)
+                args = _split_top(s[c.end():close])
+                if len(args) != len(params) or (c.start() > 0 and s[c.start() - 1] in '.:'):
+                    ok = False
+                    break
+                if uses_q and not s[close + 1:].lstrip().startswith('?'):
+                    ok = False
+                    break
+                lets = ' '.join('let %s = %s;' % (p_, a_) for p_, a_ in zip(params, args))
+                edits.append((c.start(), close + 1, '{ %s %s }' % (lets, body)))
+            if not ok:
+                continue
+            edits.append((ds, bc + 1, '// [extract] T28: fn %s inlined at its %d call site(s)\n' % (name, len(calls))))
+            for st, en, txt in sorted(edits, reverse=True):
+                s = s[:st] + txt + s[en:]
+            rw.count('T28', len(calls))
+            changed = True
+            break                               # offsets moved: rescan
+        if not changed:
+            break
+    return s
 
 
 def t8_decimal_consts(s, rw):
